@@ -236,7 +236,7 @@ class Gen:
         for k, th in enumerate(reversed(ths)):
           if flat and e.get('k') == 'if':
             e['chain'] = True
-          e = If(Op(op, v, Lit(N(th))), vals[order[k]], e)
+          e = If(Op(op, dict(v), Lit(N(th))), dict(vals[order[k]]), e)
         return e
       if c == 'if':
         self.features.add('if')
